@@ -214,10 +214,11 @@ theorem C07_close_conserves (so : ScriptOf) (a : Account) (fe : FeeExpr) (ws : B
 /-- **C07_deposit_conserves**: an accepted deposit spends the wallet's inputs plus the account input, all outpoints
 distinct (so the account outpoint exactly once); records `MinAccountValue ≤ old + amount ≤ max`, version not lowered; the recorded
 outpoint designates an output with the new account script; no dust; total fee `Σ inputs − Σ outputs ≥ 253·W/1000`
-where `Σ inputs = old + Σ wallet inputs`.  Under the ASSUMPTION `FundOk` on lnd's `FundPsbt` (template output
-unchanged + optional change, inputs = template + change + lndFee): the outputs are exactly the re-created account
-output and the change, the total fee is `rate·(weight of the account input)/1000 + lndFee`, and
-`new = old + (Σ wallet inputs − change) − fee`. -/
+where `Σ inputs = old + Σ wallet inputs`; every output is the re-created account output or the output lnd's change
+index designates, verbatim – all of this UNCONDITIONALLY, whatever `FundPsbt` returned.  Only two sub-claims need
+assumptions on lnd: `FundShape` (template output unchanged + optional change) gives "outputs = account output +
+change, nothing else"; `FundShape` + `FundSum` (inputs = template + change + lndFee) give "total fee =
+`rate·(weight of the account input)/1000 + lndFee`" and `new = old + (Σ wallet inputs − change) − fee`. -/
 theorem C07_deposit_conserves (so : ScriptOf) (a : Account) (amount rate : Int) (best eh : UInt32) (nv : Nat)
     (maxValue : Option Int) (fd : Option Funded) (f : Faults)
     (h : (deposit so a amount rate best eh nv maxValue fd f).refusal = none) :
@@ -238,10 +239,18 @@ theorem C07_deposit_conserves (so : ScriptOf) (a : Account) (amount rate : Int) 
       (∀ o ∈ tx.outputs, isDustOutput o = false ∧ 0 ≤ o.value) ∧
       inT = a.value + (fdv.inputs.map (·.utxoValue)).sum ∧
       feeForWeight FeePerKwFloor (fullWeight tx w) ≤ inT - sumValues tx.outputs ∧
-      (∀ change lndFee, FundOk fdv (acct'.output so).script (amount + fee) change lndFee →
+      -- UNCONDITIONAL (whatever FundPsbt returned): same number of outputs as the funded packet; every output is the
+      -- re-created account output or the output designated by lnd's change index, verbatim
+      tx.outputs.length = fdv.outputs.length ∧
+      (∀ o ∈ tx.outputs, o = acct'.output so ∨
+        ∃ j : Nat, fdv.changeIdx = (j : Int) ∧ fdv.outputs[j]? = some o) ∧
+      -- needs only FundShape: the outputs are exactly the re-created account output and the change
+      (∀ change, FundShape fdv (acct'.output so).script (amount + fee) change →
         tx.outputs.Perm (acct'.output so :: change) ∧
-        inT - sumValues tx.outputs = fee + lndFee ∧
-        acct'.value = a.value + ((fdv.inputs.map (·.utxoValue)).sum - sumValues change) - (fee + lndFee)) := by
+        -- needs FundShape and FundSum: the fee split and the conservation equation
+        ∀ lndFee, FundSum fdv (amount + fee) change lndFee →
+          inT - sumValues tx.outputs = fee + lndFee ∧
+          acct'.value = a.value + ((fdv.inputs.map (·.utxoValue)).sum - sumValues change) - (fee + lndFee)) := by
   obtain ⟨hs, hv, maxV, ne, tx0, hmax, hle, hge, hne, htx0, heq⟩ := deposit_inv h
   rw [heq] at h ⊢
   obtain ⟨mods', lock, pre, hloc, hlock, hsan, htx, hacct, htrace, hpre1, hpre2⟩ := spendAccount_ok h
@@ -285,28 +294,70 @@ theorem C07_deposit_conserves (so : ScriptOf) (a : Account) (amount rate : Int) 
       { applyMods a ms with state := StatePendingUpdate, outPoint := ⟨selfHash, idx⟩, heightHint := best } := by
     rw [hnew]; simp [Account.output]
   refine ⟨maxV, fdv, fee, tx0, _, idx, pre, inT, w, hmax, hfd, hfee, hs, hv, optExpiry_window hne expiry_window, htx,
-    hacct, htrace, hpre1, hpre2, hpin, hnd, hval, ?_, ?_, hver, rfl, hctr, rfl, ?_, ?_, hinT, hfloor, ?_⟩
+    hacct, htrace, hpre1, hpre2, hpin, hnd, hval, ?_, ?_, hver, rfl, hctr, rfl, ?_, ?_, hinT, hfloor, ?_, ?_, ?_⟩
   · show (applyMods a ms).value ≤ maxV
     rw [hval]; exact hle
   · show (MinAccountValue : Int) ≤ (applyMods a ms).value
     rw [hval]; exact hge
   · rw [← hnewout]; exact locateScript_some hl
   · intro o ho; exact ⟨hdust o ho, (hrange o ho).1⟩
-  · intro change lndFee hfo
-    rw [← hnewout] at hfo ⊢
+  · rw [hpout.length_eq]; exact (fixup_mem hfix).1
+  · intro o ho
+    rw [← hnewout]
+    have hmem : o ∈ outs := hpout.mem_iff.mp ho
+    rcases (fixup_mem hfix).2 o hmem with h1 | ⟨j, hj, hg⟩
+    · exact Or.inl h1
+    · exact Or.inr ⟨j, by simpa using hj, hg⟩
+  · intro change hshape
+    rw [← hnewout] at hshape ⊢
     have hnv : newOut.value = a.value + amount := by rw [hnew]; exact hval
-    have hp := fixup_fundOk hfo hfix
+    have hp := fixup_fundOk (lndFee := 0) hshape hfix
     have hp2 : tx0.outputs.Perm (newOut :: change) := by
       have : (⟨newOut.value, newOut.script⟩ : TxOut) = newOut := rfl
       rw [this] at hp
       exact hpout.trans hp
     have hsum : sumValues tx0.outputs = newOut.value + sumValues change := by
       rw [sumValues_perm hp2]; simp
-    obtain ⟨_, hfunds, _⟩ := hfo
-    refine ⟨hp2, ?_, ?_⟩
+    refine ⟨hp2, ?_⟩
+    intro lndFee hfs
+    obtain ⟨hfunds, _⟩ := hfs
+    refine ⟨?_, ?_⟩
     · rw [hinT, hsum, hnv, hfunds]; omega
     · show (applyMods a ms).value = _
       rw [hval, hfunds]; omega
+
+/-- **C07_deposit_locks**: the wallet inputs leased by `FundPsbt` are kept exactly by an accepted deposit (they are
+spent by the broadcast transaction); every refused deposit – whatever the reason, including collaborator faults after
+funding – leaves no lease behind: either `FundPsbt` was never reached / failed, or every lease is released. -/
+theorem C07_deposit_locks (so : ScriptOf) (a : Account) (amount rate : Int) (best eh : UInt32) (nv : Nat)
+    (maxValue : Option Int) (fd : Option Funded) (f : Faults) :
+    ((deposit so a amount rate best eh nv maxValue fd f).refusal = none →
+      ∃ fdv, fd = some fdv ∧ depositLocks so a amount rate best eh nv maxValue fd f
+        = (if fdv.inputs.isEmpty then Locks.none else Locks.held fdv.inputs.length)) ∧
+    (∀ r, (deposit so a amount rate best eh nv maxValue fd f).refusal = some r →
+      depositLocks so a amount rate best eh nv maxValue fd f = Locks.none ∨
+      ∃ n, depositLocks so a amount rate best eh nv maxValue fd f = Locks.released n) := by
+  constructor
+  · intro h
+    obtain ⟨hs, hv, maxV, ne, tx, hmax, hle, hge, hne, htx, _⟩ := deposit_inv h
+    obtain ⟨fee, fdv, _, hfee, hfd, _, _⟩ := inputsForDeposit_ok htx
+    refine ⟨fdv, hfd, ?_⟩
+    have hreach : depositReachesFunding a amount rate best eh nv maxValue fd = some fdv := by
+      unfold depositReachesFunding
+      have h1 : ¬ (nv < a.version) := by omega
+      have h2 : ¬ (depositChecksMin = true ∧ a.value + amount < (MinAccountValue : Int)) := fun hx => by omega
+      have h3 : ¬ (a.value + amount > maxV) := by omega
+      simp [hs, h1, hmax, h2, h3, hne, hfee, hfd]
+    unfold depositLocks
+    rw [hreach]
+    simp [h]
+  · intro r hr
+    unfold depositLocks
+    split
+    · exact Or.inl rfl
+    · split
+      · exact Or.inl rfl
+      · rw [hr]; simp
 
 /-! ## spend path and versions -/
 
@@ -473,5 +524,10 @@ example : InDomain 1000000 253 [exOut] :=
   ⟨by decide, by decide, by intro o ho; simp [exOut] at ho; subst ho; decide, by decide⟩
 set_option maxRecDepth 100000 in
 example : (valueAfterAccountUpdate 1000000 [exOut] 1 253).toOption = some 799816 := by decide
+
+set_option maxRecDepth 100000 in
+example : depositLocks exSo exAcct 500000 253 800000 0 0 (some 10000000) (some exFunded) {} = .held 1
+    ∧ depositLocks exSo exAcct 500000 253 800000 0 0 (some 10000000) (some exFunded) { store := true } = .released 1
+    ∧ depositLocks exSo exAcct 500000 253 800000 0 5 (some 100) (some exFunded) {} = .none := by decide
 
 end Pool.C07
